@@ -165,6 +165,10 @@ def run_property(prop, tier, module, meta):
             continue
         F = Facts(path)
         ctx = Ctx(prop, tier, F, config)
+        for e in getattr(F, 'normaliser_errors', []):
+            ctx.note('normaliser step skipped: ' + e)
+        for e in (getattr(F, 'renamed', []) or [])[:20]:
+            ctx.note('normalised: %s' % (e,))
         try:
             module.run(ctx)
         except AnchorMissing:
